@@ -51,7 +51,9 @@ def main():
         h = deref(e, a[0])
         which = "variables" if deref(e, a[1])[1] == "V" else "?"
         which2 = "functions" if deref(e, a[2])[1] == "F" else "?"
-        cur["events"].append(("visit", h[1], which, which2))
+        # a child is either an opaque handle ("child", h) or a real expression whose id field carries the handle
+        handle = h[0][1] if (isinstance(h, list) and isinstance(h[0], tuple) and h[0][0] == "cid") else h[1]
+        cur["events"].append(("visit", handle, which, which2))
         return []
 
     def m_insert(e, m, a):
@@ -117,6 +119,15 @@ def main():
         stats["functions"] |= eng.stats["functions"]
 
     V = lambda h: ("visit", h, "variables", "functions")
+    undecided = []
+    run_inner = run
+
+    def run(desc, expr, want):
+        # a scenario that meets an unmodelled operation is undecided (never a pass); the other scenarios are still decided
+        try:
+            return run_inner(desc, expr, want)
+        except Unsupported as u:
+            undecided.append("%s: %s" % (json.dumps(desc), str(u)[:160]))
     try:
         run({"node": "unspecified"}, ("enum", "Expr::Unspecified", []), [])
         run({"node": "literal"}, ("enum", "Expr::Literal", [("abs", "val")]), [])
@@ -147,9 +158,43 @@ def main():
         run({"node": "comprehension"},
             ("enum", "Expr::Comprehension", [[boxed("range"), S("x"), ("None",), S("@result"), boxed("init"), boxed("cond"), boxed("step"), boxed("result")]]),
             [V("range"), V("init"), V("cond"), V("step"), V("result")])
+        # the same nodes with children that are real expressions of the shapes the parser and the macros produce (a walker
+        # that looks into a child instead of visiting it is caught): each child is still one visit, whatever it contains
+        def real(h, shape):
+            ident = lambda n: ("enum", "Expr::Ident", [S(n)])
+            sub = lambda j: [("cid", (h, "inner", j)), ident("inner_%s_%d" % (h if isinstance(h, str) else "x", j))]
+            exprs = {
+                "ident": ident("name_of_%s" % (h,)),
+                "call": ("enum", "Expr::Call", [[S("g"), ("None",), ("vec", [sub(0), sub(1)])]]),
+                "guarded step": ("enum", "Expr::Call", [[S("_?_:_"), ("None",), ("vec", [sub(0), sub(1), sub(2)])]]),
+                "and step": ("enum", "Expr::Call", [[S("_&&_"), ("None",), ("vec", [sub(0), sub(1)])]]),
+                "list": ("enum", "Expr::List", [[("vec", [sub(0)])]]),
+                "literal": ("enum", "Expr::Literal", [("abs", "val")]),
+            }
+            return [("cid", h), exprs[shape]]
+
+        def rboxed(h, shape):
+            return [[Ref({0: real(h, shape)}, 0, ())]]
+        for step_shape in ("guarded step", "and step", "call", "ident"):
+            for range_shape in ("ident", "list", "call"):
+                run({"node": "comprehension", "children": "real expressions", "step": step_shape, "range": range_shape},
+                    ("enum", "Expr::Comprehension", [[rboxed("range", range_shape), S("x"), ("None",), S("@result"), rboxed("init", "literal"), rboxed("cond", "call"),
+                                                      rboxed("step", step_shape), rboxed("result", "ident")]]),
+                    [V("range"), V("init"), V("cond"), V("step"), V("result")])
+        for arg_shape in ("ident", "call", "list", "literal"):
+            for has_target in (False, True):
+                tgt = ("Some", rboxed("t", arg_shape)) if has_target else ("None",)
+                run({"node": "call", "children": "real expressions", "argument_shape": arg_shape, "receiver": has_target},
+                    ("enum", "Expr::Call", [[S("f"), tgt, ("vec", [real(("a", j), arg_shape) for j in range(2)])]]),
+                    [("report", "function", "f")] + ([V("t")] if has_target else []) + [V(("a", j)) for j in range(2)])
+            run({"node": "select", "children": "real expressions", "operand_shape": arg_shape}, ("enum", "Expr::Select", [[rboxed("op", arg_shape), S("field"), False]]), [V("op")])
+            run({"node": "list", "children": "real expressions", "element_shape": arg_shape}, ("enum", "Expr::List", [[("vec", [real(("e", j), arg_shape) for j in range(2)])]]), [V(("e", j)) for j in range(2)])
     except Unsupported as u:
         status = 2
         print("INCONCLUSIVE: unsupported: %s" % u)
+    if undecided:
+        status = 2
+        print("INCONCLUSIVE: %d scenarios undecided, e.g. unsupported: %s" % (len(undecided), undecided[0][:300]))
     if failures:  # a counterexample stands even if a later scenario met an unmodelled call (it is replayed natively anyway)
         status = 1
     out = {"functions_encoded": sorted(stats["functions"]), "scenarios": stats["scenarios"], "paths": stats["paths"], "paths_proved": stats["proved"],
